@@ -17,6 +17,8 @@ from ..schema import (
     InputObjectType,
     InputValue,
     InterfaceType,
+    ListType,
+    NonNullType,
     ObjectType,
     ScalarType,
     Schema,
@@ -277,6 +279,14 @@ class TypeInfoVisitor(DispatchingVisitor):
         return t if isinstance(t, InputObjectType) else None
 
     @property
+    def enclosing_input_type(self) -> Optional[GraphQLType]:
+        """
+        Input type expected for the list or object value enclosing the
+        current position.
+        """
+        return _peek(self._input_type_stack, 2)
+
+    @property
     def field(self) -> Optional[Field]:
         return _peek(self._field_stack)
 
@@ -398,8 +408,15 @@ class TypeInfoVisitor(DispatchingVisitor):
         self._leave_input_value()
 
     def enter_list_value(self, node):
-
-        item_type = unwrap_type(self.input_type) if self.input_type else None
+        # Only one list level is consumed: the items of a ``[[Int]]`` value
+        # are expected to be ``[Int]``. When the expected type is not a list
+        # the items are checked against that type.
+        list_type = self.input_type
+        if isinstance(list_type, NonNullType):
+            list_type = list_type.type
+        item_type = (
+            list_type.type if isinstance(list_type, ListType) else list_type
+        )
 
         self._input_type_stack.append(
             item_type if item_type and is_input_type(item_type) else None
